@@ -506,20 +506,35 @@ end reset
 
 /-! ### set_literal -/
 
-/-- **set_literal**: "numeral, space, unit expression" (blanks allowed inside and around the unit expression, the
-    splitting from the right included) is the numeral's value times the parsed factor of the unit expression. -/
-theorem set_literal_value_unit (alg : Alg K) (env : List Char → Option K) (v u : List Char) (me : Int × Int) (f : K)
-    (hv : numLit v = some me) (hu : strip u ≠ [])
-    (hf : parseUnits alg env (some (strip u)) = some f) :
-    setLiteral alg env (v ++ ' ' :: u) = some (litVal me.1 me.2 * f) :=
-  setLiteral_value_unit alg env v u me f hv hu hf
+/-- **set_literal**: "literal value, space, unit expression" — the value a number or a (nested) list / tuple of
+    numbers as python writes them (blanks inside allowed, not ending in a top-level comma), blanks allowed inside
+    and around the unit expression (which contains no comma), the splitting from the right included — is the array
+    of the value (shape as numpy gives it) times the parsed factor of the unit expression. -/
+theorem set_literal_value_unit (alg : Alg K) (env : List Char → Option K) (v u : List Char) (lit : Lit)
+    (sh : List Nat) (f : K)
+    (hv : readLitCore v = some (lit, true)) (hstrip : strip v = v) (hsh : lit.shape? = some sh) (hu : strip u ≠ [])
+    (hcomma : ',' ∉ u) (hf : parseUnits alg env (some (strip u)) = some f) :
+    setLiteralV alg env (v ++ ' ' :: u) = some (sh, lit.flat.map fun me => litVal me.1 me.2 * f) :=
+  setLiteralV_value_unit alg env v u lit sh f hv hstrip hsh hu hcomma hf
 
-/-- … and with `set_in_units`: `set_literal("v u") = set_in_units(v, u)`. -/
-theorem set_literal_eq_set_in_units (alg : Alg K) (env : List Char → Option K) (v u : List Char) (me : Int × Int) (f : K)
-    (hv : numLit v = some me) (hu : strip u ≠ [])
-    (hf : parseUnits alg env (some (strip u)) = some f) :
-    (setLiteral alg env (v ++ ' ' :: u)).map (fun x => [x]) = some (setInUnits [litVal me.1 me.2] f) := by
-  rw [set_literal_value_unit alg env v u me f hv hu hf]; rfl
+/-- the scalar case: "numeral unit-expression" is the numeral's value times the factor. -/
+theorem set_literal_scalar (alg : Alg K) (env : List Char → Option K) (v u : List Char) (m e : Int) (f : K)
+    (hv : readLitCore v = some (.num m e, true)) (hstrip : strip v = v) (hu : strip u ≠ [])
+    (hcomma : ',' ∉ u) (hf : parseUnits alg env (some (strip u)) = some f) :
+    setLiteral alg env (v ++ ' ' :: u) = some (litVal m e * f) := by
+  unfold setLiteral
+  rw [set_literal_value_unit alg env v u (.num m e) [] f hv hstrip (by simp [Lit.shape?]) hu hcomma hf]
+  simp [Lit.flat]
+
+/-- … and with `set_in_units`: `set_literal("v u") = set_in_units(v, u)`, element by element. -/
+theorem set_literal_eq_set_in_units (alg : Alg K) (env : List Char → Option K) (v u : List Char) (lit : Lit)
+    (sh : List Nat) (f : K)
+    (hv : readLitCore v = some (lit, true)) (hstrip : strip v = v) (hsh : lit.shape? = some sh) (hu : strip u ≠ [])
+    (hcomma : ',' ∉ u) (hf : parseUnits alg env (some (strip u)) = some f) :
+    (setLiteralV alg env (v ++ ' ' :: u)).map (·.2)
+      = some (setInUnits (lit.flat.map fun me => litVal me.1 me.2) f) := by
+  rw [set_literal_value_unit alg env v u lit sh f hv hstrip hsh hu hcomma hf]
+  simp [setInUnits, List.map_map, Function.comp]
 
 /-! ### sessions: nothing is remembered beyond the last state-changing call -/
 
@@ -675,7 +690,25 @@ example : ∃ sc : Scales Rat, resetScales (envSI (K := Rat) unitTable)
 example : radicand (envSI (K := Rat) unitTable) ⟨some "m".toList, some "kg".toList, none, some "J".toList, none⟩
     = some (1 * 1) := by decide +kernel
 
--- hypotheses of `set_literal_value_unit`: "1.5e3  kg * m " (numeral, unit expression with blanks)
+-- hypotheses of `set_literal_value_unit` / `set_literal_scalar`: "1.5e3  kg * m " (numeral, unit expression with
+-- blanks), "[[1, 2], [3.5, -4]] nm" (nested list with blanks inside), a tuple; refused: leading-zero integer, ragged
+example : (readLitCore "1.5e3".toList).map (fun l => (l.1.shape?, l.1.flat, l.2)) = some (some [], [(15, 2)], true) := by
+  decide +kernel
+example : strip "1.5e3".toList = "1.5e3".toList := by decide +kernel
+example : (readLit "[[1, 2], [3.5, -4]]".toList).map (fun l => (l.shape?, l.flat))
+    = some (some [2, 2], [(1, 0), (2, 0), (35, -1), (-4, 0)]) := by decide +kernel
+example : strip "[[1, 2], [3.5, -4]]".toList = "[[1, 2], [3.5, -4]]".toList := by decide +kernel
+example : (readLitCore "[[1, 2], [3.5, -4]]".toList).map (·.2) = some true := by decide +kernel
+example : ',' ∉ " kg * m ".toList := by decide
+-- `1, 2` is the tuple `(1, 2)`; `1,` ends on a top-level comma (flag false: `1, 2 m` would read on)
+example : (readLitCore "1, 2".toList).map (fun l => (l.1.shape?, l.1.flat, l.2)) = some (some [2], [(1, 0), (2, 0)], true) := by
+  decide +kernel
+example : (readLitCore "1,".toList).map (fun l => (l.1.shape?, l.1.flat, l.2)) = some (some [1], [(1, 0)], false) := by
+  decide +kernel
+example : (readLit "(0.5,)".toList).map (fun l => (l.shape?, l.flat)) = some (some [1], [(5, -1)]) := by decide +kernel
+example : (readLit "(0.5)".toList).map (fun l => (l.shape?, l.flat)) = some (some [], [(5, -1)]) := by decide +kernel
+example : readLit "010".toList = none := by decide +kernel
+example : (readLit "[[1, 2], [3]]".toList).map (·.shape?) = some none := by decide +kernel
 example : numLit "1.5e3".toList = some (15, 2) := by decide +kernel
 example : strip " kg * m ".toList = "kg * m".toList := by decide +kernel
 example : (parseUnits dimAlg (envDim unitTable) (some "kg * m".toList)).map (·.dim) = some ⟨1, 1, 0, 0, 0⟩ := by
